@@ -43,6 +43,8 @@ def run_world(aiu, w, prefix=(), expect=None):
                 rec['started'] = True
                 rec['loop_ok'] = asyncio.get_running_loop() is rec.get('expected_loop', target)
                 rec['thread'] = sched.current_id()
+                if c.get('busy'):          # the awaitable computes for a while: others may act while the loop runs it
+                    sched.point('aw.busy')
                 if c['d']:
                     await asyncio.sleep(c['d'])
                 rec['finished'] = True
@@ -246,6 +248,15 @@ def worlds(tier):
                     add({'target': 'idle', 'callers': [
                         {'api': 'ensure', 'aw': a0, 'd': d0, 'out': o0},
                         {'api': 'ensure', 'aw': a1, 'd': d1, 'out': o1}]}, (2 if core else 1) if q else 2)
+    # idle target, awaitables that keep the borrowed run busy (a scheduling point while the loop is running)
+    for b0, b1 in ((True, False), (True, True)):
+        for o0 in ('ret', 'raise'):
+            add({'target': 'idle', 'callers': [
+                {'api': 'ensure', 'aw': 'coro', 'd': 0.0, 'out': o0, 'busy': b0},
+                {'api': 'ensure', 'aw': 'coro', 'd': 0.0, 'out': 'ret', 'busy': b1}]}, 2)
+    if not q:
+        add({'target': 'idle', 'callers': [{'api': 'ensure', 'aw': 'coro', 'd': 0.0, 'out': 'ret', 'busy': True}
+                                           for _ in range(3)]}, 2)
     # running target
     for api0, api1 in (('ensure', 'ensure'), ('ensure', 'threadsafe'), ('threadsafe', 'threadsafe')):
         for d0, d1 in ((0.0, 0.0), (D, 0.0)):
@@ -340,7 +351,10 @@ def main(tier):
     items = []
     for w, pb in worlds(tier):
         if tier == 'quick':
-            items.append((w, 1, 0, 1, 1))
+            if any(c.get('busy') for c in w['callers']):
+                items += [(w, 2, s, 8, 1) for s in range(8)]
+            else:
+                items.append((w, 1, 0, 1, 1))
         else:       # two passes: more preemptions with few free switches (core worlds), and vice versa
             if pb >= 2 and len(w['callers']) <= 2 and all(c['aw'] == 'coro' for c in w['callers']):
                 items += [(w, 2, s, 8, 1) for s in range(8)]
@@ -355,7 +369,7 @@ def main(tier):
         rule=('worlds: target loop idle / running via loop_in_thread / own / closed; 1..3 caller threads with '
               'ensure_aw or run_aw_threadsafe; coroutine / Future / Task awaitables returning, raising, sleeping '
               '{0, D} on the target; loop_in_thread racing ensure_aw on a fresh loop; owner stopping early; all '
-              'schedules with <= PB preemptions and <= FB non-default choices at blocking points ((PB,FB) = (1,1) quick; thorough (2,1) and (1,2)); oracle: identical result/exception object, evaluated on the '
+              'schedules with <= PB preemptions and <= FB non-default choices at blocking points ((PB,FB) = (1,1) quick, (2,1) on the busy-awaitable worlds; thorough (2,1) and (1,2)); oracle: identical result/exception object, evaluated on the '
               'target loop, at most one runner per loop, loop_in_thread/stop post-conditions, every caller '
               'completes (deadlock detector)'),
         assumptions=['one aiuti source line / stdlib call is atomic', 'virtual clock',
